@@ -32,7 +32,7 @@
 (*     goes on after the first construction: the user's objects (utility   *)
 (*     dictionary, availability dictionary; the nests stay the same) are   *)
 (*     modified and the model is built again (Rebuild); the observable is  *)
-(*     the value of the NEW arguments (invariant Memoryless).               *)
+(*     the value of the NEW arguments (invariant Memoryless).              *)
 (*                                                                         *)
 (* A small generator builds one CASE in stages (shape, structure,          *)
 (* observation); TLC explores all cases, checks the invariants on the      *)
@@ -107,17 +107,17 @@ Pow(x, e) ==
 (*   mus    : <<mu_1, mu_2>>, mu: the scale                                *)
 (*   a, av  : y_i = a_i, availability                                      *)
 (*   names  : <<name_1, name_2>> the names the user gives to the two nest  *)
-(*            objects ("" = none: the library then names the nest          *)
-(*            "nest_<position>").  Names are labels for messages: NO        *)
-(*            definition of this module reads them (only the mutant         *)
-(*            "names-matter" does, through EffName).                        *)
+(*            objects ("" = none: the library then gives a default name,   *)
+(*            "nest_<position>" or the like).  Names are labels for        *)
+(*            messages: NO definition of this module reads them (only the  *)
+(*            mutant "names-matter" does, through EffName).                *)
 (***************************************************************************)
 N(cc)    == Len(cc.labels)
 Alts(cc) == 1..N(cc)
 NestIds  == {1, 2}
 \* the mutant keys the nests by their (effective) name: a second nest with the name of the first one
 \* takes its place, i.e. both share the parameter of the second.  (Both nests in use: nest m is then the
-\* m-th nest object handed to the library, which names an unnamed one "nest_<m>".)
+\* m-th nest object handed to the library; the mutant's library names an unnamed one "nest_<m>".)
 EffName(cc, m) == IF cc.names[m] = "" THEN (IF m = 1 THEN "nest_1" ELSE "nest_2") ELSE cc.names[m]
 Al(cc, i, m)  == cc.alpha[i][m]
 Alone(cc, i)  == \A m \in NestIds : IsZero(Al(cc, i, m))
